@@ -24,6 +24,13 @@ def run(R, job):
         def tagify(self): return core.Tag("b", "w")
         def _repr_html_(self): return "<b>w</b>"
 
+    class SRp(str):
+        "a str subclass that is self-rendering: kept as HTML like every other _repr_html_ object"
+        def _repr_html_(self): return "<srepr/>"
+
+    class IRp(int):
+        def _repr_html_(self): return "<irepr/>"
+
     class HookBoom(Exception):
         pass
 
@@ -31,10 +38,14 @@ def run(R, job):
         outer_log = []
         raising_base = it % 5 == 4          # an enclosing hook that fails when it is handed a finished tag
 
+        truthy_base = it % 3 == 1           # an ordinary hook that returns something (like stream.write does)
+
         def base(v):
             outer_log.append(v)
             if raising_base and isinstance(v, core.Tag):
                 raise HookBoom()
+            if truthy_base:
+                return 7
         if it % 7 == 6:
             class FalsyHook(list):
                 "a callable hook object that is falsy (an empty recorder)"
@@ -53,7 +64,8 @@ def run(R, job):
             k = r.random()
             if depth <= 0 or k < 0.35:
                 import collections
-                v = r.choice(["text", 3, None, Ellipsis, Rp(), Widget(), core.Tag("span"), core.TagList("a"), {"bad": 1}, object(), b"<raw bytes>", range(3), collections.deque(["x"]), ["in", [b"list"]], 2.5])
+                v = r.choice(["text", 3, None, Ellipsis, Rp(), Widget(), core.Tag("span"), core.TagList("a"), {"bad": 1}, object(), b"<raw bytes>", range(3), collections.deque(["x"]), ["in", [b"list"]], 2.5,
+                              SRp("plain <text>"), IRp(5), "", 0, False, " world", "\n    indented\n    lines\n", "\t", "  ", 0.0, core.HTML("<i>h</i>"), {1, 2}, 2 + 3j])
                 desc.append(f"display({type(v).__name__})")
                 target = active[-1] if active else None
                 ok = True
@@ -63,12 +75,13 @@ def run(R, job):
                     ok = False
                 if target is None:
                     return
-                acceptable = isinstance(v, (str, int, float, core.Tag, core.TagList, Rp, Widget))
+                acceptable = isinstance(v, (str, int, float, core.Tag, core.TagList, Rp, Widget, core.HTML))
                 if v is None or v is Ellipsis:
                     if not ok: problems.append("None/Ellipsis raised")
                 elif acceptable:
                     if not ok: problems.append(f"valid value {type(v).__name__} rejected")
-                    if isinstance(v, Rp): expected_kids[id(target)].append(("html", "<repr/>"))
+                    if isinstance(v, (Rp, SRp, IRp)): expected_kids[id(target)].append(("html", v._repr_html_()))
+                    elif isinstance(v, core.HTML): expected_kids[id(target)].append(("html", v.data))
                     elif isinstance(v, core.TagList): expected_kids[id(target)].extend(("obj", x) for x in v)
                     elif isinstance(v, (int, float)): expected_kids[id(target)].append(("obj", str(v)))
                     else: expected_kids[id(target)].append(("obj", v))
@@ -97,6 +110,7 @@ def run(R, job):
             desc.append("with(")
             entry_hook = sys.displayhook
             parent = active[-1] if active else None
+            leaving = []
             try:
                 with t:
                     if sys.displayhook is entry_hook: problems.append("hook not replaced on enter")
@@ -104,8 +118,13 @@ def run(R, job):
                     try:
                         for _ in range(r.choice([0, 1, 2, 3])):
                             block(depth - 1)
+                    except BaseException as ex_:
+                        leaving.append(type(ex_).__name__)
+                        raise
                     finally:
                         active.pop()
+                if leaving:
+                    problems.append(f"a {leaving[0]} raised inside the block did not propagate out of it")
             finally:
                 desc.append(")")
                 if sys.displayhook is not entry_hook:
